@@ -1,8 +1,10 @@
 package main
 
 import (
+	"fmt"
 	"net/http"
 	"net/http/httptest"
+	"sync/atomic"
 
 	restful "github.com/emicklei/go-restful/v3"
 )
@@ -26,7 +28,18 @@ func (r recObs) codeOrRoute() int {
 }
 
 func newRecorderObserve(c *restful.Container, hr *http.Request, cell **obsCell) recObs {
-	*cell = &obsCell{}
+	mine := &obsCell{}
+	*cell = mine
+	rid := fmt.Sprint(atomic.AddInt64(&ridSeq, 1))
+	hr.Header.Set("X-Rid", rid)
+	cellMu.Lock()
+	cellMap[rid] = mine
+	cellMu.Unlock()
+	defer func() {
+		cellMu.Lock()
+		delete(cellMap, rid)
+		cellMu.Unlock()
+	}()
 	rec := httptest.NewRecorder()
 	out := recObs{}
 	func() {
